@@ -1141,7 +1141,7 @@ func (w *World) newPodObject(a *App, name string, index int) corev1.Pod {
 		ann[annPool] = a.Pool
 	}
 	if len(a.Ranges) > 0 {
-		ca := cniArgsJSON{RequestIPRange: encodeRanges(a.Ranges)}
+		ca := cniArgsJSON{RequestIPRange: encodeRanges(a.Ranges, w.neverConfigured)}
 		b, _ := json.Marshal(ca)
 		ann[annArgs] = string(b)
 	}
@@ -1341,7 +1341,18 @@ func (w *World) crashForRecovery() {
 
 // encodeRanges writes each list of the request the way users do: runs of consecutive addresses as one "first~last"
 // string, single addresses as they are (the model keeps the explicit lists).
-func encodeRanges(lists [][]string) [][]string {
+// neverConfigured: the address is in no configuration version published so far (the generator never fills the gaps it
+// leaves between ranges, so it never will be).
+func (w *World) neverConfigured(ip string) bool {
+	for _, cs := range w.confVers {
+		if _, ok := cs[ip]; ok {
+			return false
+		}
+	}
+	return true
+}
+
+func encodeRanges(lists [][]string, unconfigured func(string) bool) [][]string {
 	last := func(ip string) int {
 		n, _ := strconv.Atoi(ip[strings.LastIndex(ip, ".")+1:])
 		return n
@@ -1359,7 +1370,19 @@ func encodeRanges(lists [][]string) [][]string {
 		var enc []string
 		for i := 0; i < len(sorted); {
 			j := i
-			for j+1 < len(sorted) && sorted[j+1][:strings.LastIndex(sorted[j+1], ".")] == sorted[i][:strings.LastIndex(sorted[i], ".")] && last(sorted[j+1]) == last(sorted[j])+1 {
+			for j+1 < len(sorted) && sorted[j+1][:strings.LastIndex(sorted[j+1], ".")] == sorted[i][:strings.LastIndex(sorted[i], ".")] {
+				// the next address continues the run if it is the neighbour, or if everything between the two is an
+				// address that no pool configures (one range string may then span two pools of a shared pod subnet)
+				gapFree := true
+				for h := last(sorted[j]) + 1; h < last(sorted[j+1]); h++ {
+					if h-last(sorted[j]) > 3 || !unconfigured(sorted[j][:strings.LastIndex(sorted[j], ".")+1]+strconv.Itoa(h)) {
+						gapFree = false
+						break
+					}
+				}
+				if !gapFree {
+					break
+				}
 				j++
 			}
 			if j > i {
